@@ -99,8 +99,10 @@ contract(RK + '_raw_private_key_op_bytes',
          requires=lambda ns: kN(ns) > 0,
          result=T.bytes(),
          raises={ValueError: ('iff', lambda ns: pub_invalid(ns, ns.message))},
-         ensures=lambda ns: S.And(S.seq_eq(ns.result, priv_bytes(ns.old, ns.message)),
-                                  S.len_(ns.result) == kK(ns.old), S.is_bytes(ns.result)),
+         ensures=lambda ns: S.And(ns.result == priv_bytes(ns.old, ns.message),
+                                  S.len_(ns.result) == kK(ns.old), S.is_bytes(ns.result),
+                                  (lambda m: S.And(m >= 0, m < kN(ns.old)))(
+                                      VInt(RsaPriv(kN(ns.old).t, kD(ns.old).t, MC.b2i(ns.message).t)))),
          prop=('C11', 'C10'),
          doc='ValueError exactly for a wrong length or an integer >= n; otherwise the k-byte big-endian '
              'encoding of the raw private-key operation on int(message)')
@@ -149,7 +151,7 @@ contract(RK + '_dec_prf',
          requires=lambda ns: S.And(ns.out_len >= 0, ns.out_len < 65536 * 8),
          result=T.bytes(),
          raises={ValueError: ('iff', lambda ns: ns.out_len % 8 != 0)},
-         ensures=lambda ns: S.And(S.seq_eq(ns.result, dec_prf(ns.key, ns.label, ns.out_len)),
+         ensures=lambda ns: S.And(ns.result == dec_prf(ns.key, ns.label, ns.out_len),
                                   S.len_(ns.result) == ns.out_len / 8, S.is_bytes(ns.result)),
          loops={1: LoopSpec(_inv_prf, variant=lambda ns: ns.out_len / 8 + 32 - S.len_(ns.out),
                             fingerprint='len(out) < out_len // 8')},
@@ -430,8 +432,10 @@ contract(RK + '_raw_public_key_op_bytes',
          requires=lambda ns: kN(ns) > 0,
          result=T.bytes(),
          raises={ValueError: ('iff', lambda ns: pub_invalid(ns, ns.ciphertext))},
-         ensures=lambda ns: S.And(S.seq_eq(ns.result, pub_bytes(ns.old, ns.ciphertext)),
-                                  S.len_(ns.result) == kK(ns.old), S.is_bytes(ns.result)),
+         ensures=lambda ns: S.And(ns.result == pub_bytes(ns.old, ns.ciphertext),
+                                  S.len_(ns.result) == kK(ns.old), S.is_bytes(ns.result),
+                                  (lambda m: S.And(m >= 0, m < kN(ns.old)))(
+                                      VInt(RsaPub(MC.b2i(ns.ciphertext).t, kE(ns.old).t, kN(ns.old).t)))),
          prop='C10',
          doc='ValueError exactly for a wrong length or an integer >= n; otherwise I2OSP(int(c)^e mod n, k)')
 
@@ -587,32 +591,53 @@ def mgf1(h, seed, n):
     return VSeq(Mgf1(MC.alg_id(h), seed.t, _lift(n).t), 'byte', 'bytearray')
 
 
-def _inv_mgf(h):
+def _hs(ns):
+    """the hash named by the hAlg argument (contracts below are stated for whichever hash is passed)"""
+    return ns.hAlg.s.lower()
+
+
+def _inv_mgf(ns):
+    h = _hs(ns)
     hl = MC.HASH_SIZES[h]
-
-    def inv(ns):
-        Tq, x = ns.T, ns.idx
-        k = z3.Int(fresh_name('k'))
-        return S.And(x >= 0, S.len_(Tq) == hl * x, S.is_bytes(Tq),
-                     VBool(forall_pat([k], z3.Implies(z3.And(0 <= k, k < slen(Tq.t)),
-                                                      sat(Tq.t, k) == _mgf_byte(h, ns.mgfSeed.t, k)),
-                                      [sat(Tq.t, k)])))
-    return inv
+    Tq, x = ns.T, ns.idx
+    k = z3.Int(fresh_name('k'))
+    return S.And(x >= 0, S.len_(Tq) == hl * x, S.is_bytes(Tq),
+                 VBool(forall_pat([k], z3.Implies(z3.And(0 <= k, k < slen(Tq.t)),
+                                                  sat(Tq.t, k) == _mgf_byte(h, ns.mgfSeed.t, k)),
+                                  [sat(Tq.t, k)])))
 
 
-for _h in MC.HASH_SIZES:
-    _c = contract(RK + 'MGF1', name='RSAKey.MGF1[%s]' % _h,
-                  params={'self': rsa_key(), 'mgfSeed': T.bytes(), 'maskLen': T.int(), 'hAlg': T.const(_h)},
-                  requires=lambda ns: ns.maskLen >= 0,
-                  result=T.bytes(),
-                  raises={MaskTooLongError: ('iff', (lambda hl: lambda ns: ns.maskLen > (1 << 32) * hl)(MC.HASH_SIZES[_h]))},
-                  ensures=(lambda hh: lambda ns: S.And(S.seq_eq(ns.result, mgf1(hh, ns.mgfSeed, ns.maskLen)),
-                                                       S.len_(ns.result) == ns.maskLen, S.is_bytes(ns.result)))(_h),
-                  loops={1: LoopSpec(_inv_mgf(_h), fingerprint='range(0, end)')},
-                  prop='C10',
-                  doc='RFC 8017 B.2.1: byte j of the mask is byte (j mod hLen) of Hash(seed || I2OSP(j div hLen, 4)); '
-                      '"mask too long" exactly for maskLen > 2^32 hLen')
-    _c.variant = _h
+def per_hash(qual, name, params_for, hashes, primary='sha256', **kw):
+    """One contract text, verified once per hash name.  The `primary` instance is registered first and
+    without variant tag, so it is the one applied at call sites (its lambdas read the hash from the
+    hAlg argument of the call); the others are verification-only variants."""
+    out = []
+    for h in [primary] + [x for x in hashes if x != primary]:
+        c = contract(qual, name='%s[%s]' % (name, h), params=params_for(h), **kw)
+        if h != primary:
+            c.variant = h
+        out.append(c)
+    return out
+
+
+per_hash(RK + 'MGF1', 'RSAKey.MGF1',
+         lambda h: {'self': rsa_key(), 'mgfSeed': T.bytes(), 'maskLen': T.int(), 'hAlg': T.const(h)},
+         list(MC.HASH_SIZES),
+         requires=lambda ns: ns.maskLen >= 0,
+         result=T.bytes(),
+         raises={MaskTooLongError: ('iff', lambda ns: ns.maskLen > (1 << 32) * MC.HASH_SIZES[_hs(ns)])},
+         ensures=lambda ns: S.And(ns.result == mgf1(_hs(ns), ns.mgfSeed, ns.maskLen),
+                                  S.len_(ns.result) == ns.maskLen, S.is_bytes(ns.result)),
+         loops={1: LoopSpec(_inv_mgf, fingerprint='range(0, end)')},
+         prop='C10',
+         doc='RFC 8017 B.2.1: byte j of the mask is byte (j mod hLen) of Hash(seed || I2OSP(j div hLen, 4)); '
+             '"mask too long" exactly for maskLen > 2^32 hLen')
+
+
+def ceil8(x):
+    """ceil(x / 8) for x >= 0"""
+    x = _lift(x)
+    return VInt(x.t / 8 + z3.If(x.t % 8 != 0, 1, 0))
 
 
 class PssSpec(object):
@@ -622,13 +647,13 @@ class PssSpec(object):
         self.h, self.hLen = h, MC.HASH_SIZES[h]
         hLen = self.hLen
         self.mHash, self.EM, self.emBits, self.sLen = mHash, EM, _lift(emBits), _lift(sLen)
-        self.emLen = (self.emBits + 7) / 8
+        self.emLen = ceil8(self.emBits)
         emLen = self.emLen
         self.zbits = 8 * emLen - self.emBits                     # leftmost bits that must be zero
         self.top = VInt(smt.pow2((8 - self.zbits).t))             # 2^(8 - zbits): bound on the first octet
         self.dbLen = emLen - hLen - 1
         self.maskedDB = EM[0:self.dbLen]                          # step 5
-        self.H = EM[self.dbLen:emLen - 1]
+        self.H = EM[self.dbLen:self.dbLen + hLen]
         self.dbMask = mgf1(h, self.H, self.dbLen)                 # step 7
         raw = VSeq(smt.s_xor(self.maskedDB.t, self.dbMask.t), 'byte', 'bytearray')      # step 8
         self.DB = VSeq(smt.s_upd(raw.t, z3.IntVal(0), (raw[0] % self.top).t), 'byte', 'bytearray')   # step 9
@@ -650,24 +675,166 @@ class PssSpec(object):
         return S.And(*[c for (_, c) in self.steps()])
 
 
+EMBITS_MAX = 1 << 24       # moduli up to 16M bits (MGF1 "mask too long" needs 2^32 hLen bytes: unreachable)
+
+
 def _pss_verify_requires(ns):
-    emLen = (ns.emBits + 7) / 8
-    return S.And(ns.emBits >= 1, ns.sLen >= 0, S.len_(ns.EM) == emLen)
+    return S.And(ns.emBits >= 1, ns.emBits <= EMBITS_MAX, ns.sLen >= 0, S.len_(ns.EM) == ceil8(ns.emBits))
 
 
 PSS_HASHES = ('sha256', 'sha384', 'sha512', 'sha1')
 
-for _h in PSS_HASHES:
-    _c = contract(RK + 'EMSA_PSS_verify', name='RSAKey.EMSA_PSS_verify[%s]' % _h,
-                  params={'self': rsa_key(), 'mHash': T.bytes(), 'EM': T.bytes(), 'emBits': T.int(),
-                          'hAlg': T.const(_h), 'sLen': T.int()},
-                  requires=_pss_verify_requires,
+per_hash(RK + 'EMSA_PSS_verify', 'RSAKey.EMSA_PSS_verify',
+         lambda h: {'self': rsa_key(), 'mHash': T.bytes(), 'EM': T.bytes(), 'emBits': T.int(),
+                    'hAlg': T.const(h), 'sLen': T.int()},
+         PSS_HASHES,
+         requires=_pss_verify_requires,
+         result=T.bool(),
+         raises={InvalidSignature: ('iff', lambda ns: S.Not(PssSpec(ns.mHash, ns.EM, ns.emBits, _hs(ns), ns.sLen).consistent()))},
+         ensures=lambda ns: S.And(ns.result, PssSpec(ns.mHash, ns.EM, ns.emBits, _hs(ns), ns.sLen).consistent()),
+         prop='C10',
+         doc='O-pss-steps: returns True exactly when every check of RFC 8017 9.1.2 (steps 3-14) holds for the emLen-octet EM, '
+             'otherwise InvalidSignature')
+
+
+def pss_encoding(mHash, emBits, h, salt):
+    """EMSA-PSS-ENCODE (RFC 8017 9.1.1 steps 5-12) with the given salt, as a byte-string term"""
+    hLen = MC.HASH_SIZES[h]
+    emBits = _lift(emBits)
+    emLen = ceil8(emBits)
+    sLen = S.len_(salt)
+    H = MC.hash_(h, S.cat(S.rep(0, 8), mHash, salt))                     # steps 5, 6
+    DB = S.cat(S.rep(0, emLen - sLen - hLen - 2), lit(b'\x01'), salt)    # steps 7, 8
+    dbMask = mgf1(h, H, emLen - hLen - 1)                                # step 9
+    raw = VSeq(smt.s_xor(DB.t, dbMask.t), 'byte', 'bytearray')           # step 10
+    top = VInt(smt.pow2((8 - (8 * emLen - emBits)).t))
+    masked = VSeq(smt.s_upd(raw.t, z3.IntVal(0), (raw[0] % top).t), 'byte', 'bytearray')   # step 11
+    return S.cat(masked, H, lit(b'\xbc'))                                # step 12
+
+
+def _one_rng(ns, want_len):
+    """the single RNG draw of the call: (VBool ok, bytes) -- ok is False when there is not exactly one draw"""
+    rng = [e for e in ns.events if e[0] == 'rng']
+    if len(rng) != 1:
+        return VBool(z3.BoolVal(False)), None
+    return S.And(rng[0][1][0] == want_len, S.len_(rng[0][2]) == want_len), rng[0][2]
+
+
+def _enc_ensures(ns):
+    ok, salt = _one_rng(ns, ns.sLen)
+    if salt is None:
+        return ok
+    emLen = ceil8(ns.emBits)
+    return S.And(ok, S.len_(ns.result) == emLen, S.is_bytes(ns.result),
+                 ns.result == pss_encoding(ns.mHash, ns.emBits, _hs(ns), salt))
+
+
+def _enc_apply(c, ex, args, kwargs, st, fr, node):
+    """modular use of EMSA_PSS_encode: one RNG draw of sLen bytes (recorded as event), result = the RFC encoding"""
+    from pyvc.contract import NS
+    from pyvc import source
+    fs = source.load(c.qual)
+    env = ex.bind_params(fs, args, kwargs, st, fr)
+    line = getattr(node, 'lineno', 0)
+    cst = st.fork()
+    cst.env = env
+    ns = NS(ex, cst, fr)
+    ex.oblige(st, 'call:%s:requires@L%d' % (c.name, line), truthy(_lift(c.requires(ns))), kind='call-requires', where=line)
+    bad = truthy(_lift(c.raises[EncodingError][1](ns)))
+    outs = []
+    s_bad = st.fork()
+    s_bad.assume(bad)
+    if ex.feasible(s_bad):
+        outs.append(Outcome('raise', s_bad, VExc(EncodingError, [], 'call %s line %d' % (c.name, line))))
+    s_ok = st.fork()
+    s_ok.assume(z3.Not(bad))
+    if ex.feasible(s_ok):
+        salt = T.bytes().make('salt', s_ok, ex.bv)
+        s_ok.assume(slen(salt.t) == env['sLen'].t)
+        s_ok.events.append(('rng', [env['sLen']], salt))
+        res = T.bytes().make('ret_EMSA_PSS_encode', s_ok, ex.bv)
+        s_ok.assume(truthy(S.And(res == pss_encoding(env['mHash'], env['emBits'], _hs(ns), salt),
+                                 S.len_(res) == ceil8(env['emBits']))))
+        outs.append(Outcome('normal', s_ok, res))
+    return outs
+
+
+per_hash(RK + 'EMSA_PSS_encode', 'RSAKey.EMSA_PSS_encode',
+         lambda h: {'self': rsa_key(), 'mHash': T.bytes(), 'emBits': T.int(), 'hAlg': T.const(h), 'sLen': T.int()},
+         PSS_HASHES,
+         requires=lambda ns: S.And(ns.emBits >= 1, ns.emBits <= EMBITS_MAX, ns.sLen >= 0),
+         result=T.bytes(),
+         raises={EncodingError: ('iff', lambda ns: ceil8(ns.emBits) < MC.HASH_SIZES[_hs(ns)] + ns.sLen + 2)},
+         ensures=_enc_ensures, apply_fn=_enc_apply,
+         prop='C10',
+         doc='RFC 8017 9.1.1: "encoding error" exactly when emLen < hLen + sLen + 2; otherwise maskedDB || H || bc for the '
+             'one freshly drawn sLen-byte salt, leftmost 8emLen-emBits bits cleared, length emLen')
+
+
+def _modbits(ns):
+    return MC.bitlen(kN(ns))
+
+
+def _pssv_spec(ns):
+    """RFC 8017 8.1.2 on (n, e): length / range of S, EM = I2OSP(m, emLen), EMSA-PSS-VERIFY(mHash, EM, modBits - 1)"""
+    emBits = _modbits(ns) - 1
+    emLen = ceil8(emBits)
+    m = VInt(RsaPub(MC.b2i(ns.S).t, kE(ns).t, kN(ns).t))
+    EM = MC.i2b(m, emLen)
+    return S.And(S.Not(pub_invalid(ns, ns.S)), m < S.pow256(emLen),
+                 PssSpec(ns.mHash, EM, emBits, _hs(ns), ns.sLen).consistent())
+
+
+def _pssv_contracts(tag, extra_req, doc):
+    cs = per_hash(RK + 'RSASSA_PSS_verify', 'RSAKey.RSASSA_PSS_verify' + tag,
+                  lambda h: {'self': rsa_key(), 'mHash': T.bytes(), 'S': T.bytes(), 'hAlg': T.const(h), 'sLen': T.int()},
+                  ('sha256',) if tag else PSS_HASHES,
+                  requires=lambda ns: S.And(kN(ns) > 1, _modbits(ns) <= EMBITS_MAX, ns.sLen >= 0, extra_req(ns)),
                   result=T.bool(),
-                  raises={InvalidSignature: ('iff', (lambda hh: lambda ns: S.Not(
-                      PssSpec(ns.mHash, ns.EM, ns.emBits, hh, ns.sLen).consistent()))(_h))},
-                  ensures=(lambda hh: lambda ns: S.And(ns.result, PssSpec(ns.mHash, ns.EM, ns.emBits, hh, ns.sLen).consistent()))(_h),
-                  loops={('RSAKey.MGF1', 1): LoopSpec(_inv_mgf(_h), fingerprint='range(0, end)')},
-                  prop='C10',
-                  doc='O-pss-steps: returns True exactly when every check of RFC 8017 9.1.2 (steps 3-14) holds for the emLen-octet EM, '
-                      'otherwise InvalidSignature')
-    _c.variant = _h
+                  raises={InvalidSignature: lambda ns: S.Not(_pssv_spec(ns))},
+                  ensures=lambda ns: S.And(ns.result, _pssv_spec(ns.old)),
+                  cover=not tag, opts={'budget_factor': 4}, prop='C10', doc=doc)
+    return cs
+
+
+def _not_1_mod_8(ns):
+    # the second conjunct is an arithmetic consequence of the first (emLen == k); stated to seed the solver
+    return S.And((_modbits(ns) - 1) % 8 != 0, ceil8(_modbits(ns) - 1) == kK(ns))
+
+
+_pssv_contracts('', _not_1_mod_8,
+                'RFC 8017 8.1.2 for modulus bit lengths not congruent 1 mod 8: True exactly when len(S)==k, int(S)<n and '
+                'EM = I2OSP(S^e mod n, emLen) passes EMSA-PSS-VERIFY with emBits = modBits-1; otherwise InvalidSignature')
+for _c in _pssv_contracts('<modBits=1 mod 8>', lambda ns: (_modbits(ns) - 1) % 8 == 0,
+                          'same statement for modBits = 1 mod 8 (emLen = k - 1): EXPECTED TO FAIL on the pinned tree '
+                          '(EM is taken as k bytes, all offsets shift by one)'):
+    _c.variant = 'modbits-1-mod-8'
+
+
+def _pss_sign_ensures(ns):
+    ok, salt = _one_rng(ns, ns.sLen)
+    if salt is None:
+        return ok
+    EM = pss_encoding(ns.mHash, _modbits(ns.old) - 1, _hs(ns), salt)
+    return S.And(ok, ns.result == priv_bytes(ns.old, EM), S.len_(ns.result) == kK(ns.old))
+
+
+def _pss_sign_contracts(tag, extra_req, doc):
+    return per_hash(RK + 'RSASSA_PSS_sign', 'RSAKey.RSASSA_PSS_sign' + tag,
+                    lambda h: {'self': rsa_key(), 'mHash': T.bytes(), 'hAlg': T.const(h), 'sLen': T.int()},
+                    ('sha256',) if tag else PSS_HASHES,
+                    requires=lambda ns: S.And(kN(ns) > 1, _modbits(ns) <= EMBITS_MAX, ns.sLen >= 0, extra_req(ns)),
+                    result=T.bytes(),
+                    raises={EncodingError: ('iff', lambda ns: ceil8(_modbits(ns) - 1) < MC.HASH_SIZES[_hs(ns)] + ns.sLen + 2),
+                            MessageTooLongError: lambda ns: VBool(z3.BoolVal(False))},
+                    ensures=_pss_sign_ensures, cover=not tag, prop='C10', doc=doc)
+
+
+_pss_sign_contracts('', _not_1_mod_8,
+                    'RFC 8017 8.1.1 for modulus bit lengths not congruent 1 mod 8: the only failure is "encoding error" '
+                    '(emLen < hLen+sLen+2); otherwise S = I2OSP(RSASP1(OS2IP(EMSA-PSS-ENCODE(mHash, modBits-1))), k); '
+                    'MessageTooLongError never')
+for _c in _pss_sign_contracts('<modBits=1 mod 8>', lambda ns: (_modbits(ns) - 1) % 8 == 0,
+                              'same statement for modBits = 1 mod 8: EXPECTED TO FAIL on the pinned tree (EM has k-1 bytes, the '
+                              'raw operation demands k: MessageTooLongError)'):
+    _c.variant = 'modbits-1-mod-8'
